@@ -223,8 +223,8 @@ Definition local_name (q : qname) : str := snd (split_qname q).
 
 Definition build_qname (ns : option str) (tag : str) : qname :=
   match ns, tag with
-  | Some (_ :: _ as u), _ :: _ => [123] ++ u ++ [125] ++ tag
-  | Some (_ :: _ as u), [] => u
+  | Some ((_ :: _) as u), _ :: _ => [123] ++ u ++ [125] ++ tag
+  | Some ((_ :: _) as u), [] => u
   | _, _ => tag
   end.
 
